@@ -30,7 +30,7 @@ def run(tier, seed, replay=None):
             ck.mc(DIR, "ColGen", "MC_cg_10_SZ234_3.cfg", timeout=14400)
         n = 400 if tier == "quick" else 6000
         cases = [drv.gen_stock(rng) for _ in range(n)] + [drv.gen_custom(rng) for _ in range(n // 2)]
-    res = run_tasks("cutstock", "run_cut", cases, timeout=30)
+    res = run_tasks("cutstock", "run_cut", cases, timeout=120)
     trs = []
     for r, c in zip(res, cases):
         if not isinstance(r, dict) or "events" not in r:
@@ -65,7 +65,7 @@ def run(tier, seed, replay=None):
     # ---- step level: every master LP and every pricing call of solve_cg (wrapped module-level names) as a step of column generation
     sc = [c for c in cases if c.get("kind") == "stock" and not c.get("floats") and len(c["sizes"]) <= 3
           and __import__("math").prod(c["W"] // z + 1 for z in c["sizes"]) <= 1500][: 250 if tier == "quick" else 3000]
-    st = [r for r in run_tasks("cutstock", "run_cg_steps", sc, timeout=30) if isinstance(r, dict) and "steps" in r]
+    st = [r for r in run_tasks("cutstock", "run_cg_steps", sc, timeout=120) if isinstance(r, dict) and "steps" in r]
     if len(st) < len(sc) // 2:
         raise tlc.MachineryError("column-generation step traces could not be recorded (%d of %d)" % (len(st), len(sc)))
     sv = ck.validate(DIR, "CgSteps", st, "master LP / pricing calls of solve_cg", timeout=14400)
